@@ -2,6 +2,7 @@
 #[path = "common_cones.rs"]
 mod common_cones;
 use clarabel::algebra::*;
+use clarabel::solver::implementations::default::verif_variables;
 use clarabel::solver::traits::ProblemData;
 use clarabel::solver::SupportedConeT::*;
 use clarabel::solver::*;
@@ -141,6 +142,39 @@ fn oracle_equilibrate(r: &Req, out: &str) -> Result<(), String> {
             return Err(format!("einv[{}] != 1/e", i));
         }
     }
+    // positivity as soon as smax > 0, whatever smin is (C10.scalings_positive[_any_min])
+    if smax > 0.0 && smin.is_finite() && smax.is_finite() {
+        for (k, &v) in d.iter().chain(e.iter()).chain(std::iter::once(&c)).enumerate() {
+            if !(v > 0.0 && v.is_finite()) {
+                return Err(format!("scaling #{} = {:e} is not positive and finite", k, v));
+            }
+        }
+    }
+    // 0 < smin <= smax and at least one pass: d, e in [smin, smax] from ANY start;
+    // c in [smin, smax] or untouched (C10.bounds_any_start)
+    if smin > 0.0 && smin <= smax && iters >= 1 {
+        let slack = 1.0 + 16.0 * f64::EPSILON;
+        for (k, &v) in d.iter().chain(e.iter()).enumerate() {
+            if !(v >= smin / slack && v <= smax * slack) {
+                return Err(format!("scaling #{} = {:e} outside [{:e},{:e}] (general bounds)", k, v, smin, smax));
+            }
+        }
+        if !(c == 1.0 || (c >= smin / slack && c <= smax * slack)) {
+            return Err(format!("c = {:e} neither 1 nor in [{:e},{:e}]", c, smin, smax));
+        }
+    }
+    // q = 0 or P = 0: the cost scaling is never touched (C10.cost_unscaled_when_q_zero)
+    if (q.iter().all(|&v| v == 0.0) || p.nzval.iter().all(|&v| v == 0.0)) && c != 1.0 {
+        return Err(format!("q = 0 or P = 0 but c = {:e}", c));
+    }
+    // inverted bounds smin > smax > 0: after a pass every d_j is (a rounding of) smin or smax
+    if smax > 0.0 && smin > smax && iters >= 1 {
+        for (j, &v) in d.iter().enumerate() {
+            if ulp_dist(v, smin) > 4 && ulp_dist(v, smax) > 4 {
+                return Err(format!("inverted bounds: d[{}] = {:e} is neither min nor max", j, v));
+            }
+        }
+    }
     // bounds (the settings are sane: 0 < smin <= 1 <= smax)
     if smin > 0.0 && smin <= 1.0 && 1.0 <= smax {
         let slack = 1.0 + 16.0 * f64::EPSILON;
@@ -177,8 +211,29 @@ fn oracle_equilibrate(r: &Req, out: &str) -> Result<(), String> {
             }
         }
     }
+    // arbitrary 0 < smin <= smax, at least one pass: all-zero rows (scalar cones) and all-zero
+    // columns end with exactly clip(1, smin, smax) (C10.zero_rows_general / zero_cols_general)
+    let rest = if 1.0 < smin { smin } else if smax < 1.0 { smax } else { 1.0 };
+    let general = smin > 0.0 && smin <= smax && iters >= 1;
+    if general {
+        for j in 0..n {
+            if !colnz[j] && d[j] != rest {
+                return Err(format!("zero column {} of [P;A]: d={:e}, expected clip(1,min,max)={:e}", j, d[j], rest));
+            }
+        }
+    }
+    if iters == 0 && (d.iter().chain(e.iter()).any(|&v| v != 1.0) || c != 1.0) {
+        return Err("no pass but the scalings are not 1".into());
+    }
     for (cone, rg) in icones.iter().zip(rngs.iter()) {
         let scalar = matches!(cone, ZeroConeT(_) | NonnegativeConeT(_));
+        if scalar && general {
+            for i in rg.clone() {
+                if !rownz[i] && e[i] != rest {
+                    return Err(format!("zero row {} of A (scalar cone): e={:e}, expected clip(1,min,max)={:e}", i, e[i], rest));
+                }
+            }
+        }
         if scalar {
             if smin <= 1.0 && 1.0 <= smax {
                 for i in rg.clone() {
@@ -215,6 +270,59 @@ fn oracle_solver_new(_r: &Req, out: &str) -> Result<(), String> {
     } else {
         Err(format!("solver.data after DefaultSolver::new differs from new+equilibrate: {}", out))
     }
+}
+
+// ---------------------------------------------------------------- equil.unscale_roundtrip
+// scale a user point (x, s, z) into internal coordinates with the scalings `equilibrate` left
+// (x̂ = (x∘dinv)·τ, ŝ = (s∘e)·τ, ẑ = (z∘einv)·(τc)) and run the real `DefaultVariables::unscale`.
+
+fn run_unscale_roundtrip(r: &Req) -> String {
+    let cones = parse_cones(r.str("cones"));
+    let st = settings_of(r);
+    let mut data = DefaultProblemData::<f64>::new(&r.csc("P"), &r.fs("q"), &r.csc("A"), &r.fs("b"), &cones, &st);
+    let cc = CompositeCone::<f64>::new(&data.cones);
+    assert_eq!(cc.numel(), data.m);
+    data.equilibrate(&cc, &st);
+    let (tau, kappa) = (r.f("tau"), r.f("kappa"));
+    let mut v = DefaultVariables::<f64>::new(0, 0);
+    v.x = r.fs("ux");
+    v.s = r.fs("us");
+    v.z = r.fs("uz");
+    {
+        let q = &data.equilibration;
+        v.x.hadamard(&q.dinv).scale(tau);
+        v.s.hadamard(&q.e).scale(tau);
+        v.z.hadamard(&q.einv).scale(tau * q.c);
+    }
+    v.τ = tau;
+    v.κ = kappa;
+    verif_variables::unscale(&mut v, &data, false);
+    Line::out().fs("x", &v.x).fs("s", &v.s).fs("z", &v.z).f("tau", v.τ).f("kappa", v.κ).done()
+}
+fn oracle_unscale_roundtrip(r: &Req, out: &str) -> Result<(), String> {
+    let (smin, smax, tau, kappa) = (r.f("smin"), r.f("smax"), r.f("tau"), r.f("kappa"));
+    let (x, s, z) = (r.fs("ux"), r.fs("us"), r.fs("uz"));
+    let (q, b) = (r.fs("q"), r.fs("b"));
+    if !(smax > 0.0) || tau == 0.0 || !tau.is_finite() || x.len() != q.len() || s.len() != b.len() || z.len() != b.len() {
+        return Ok(());
+    }
+    no_panic(out)?;
+    let o = resp(out);
+    let rel = 12.0 * f64::EPSILON;
+    for (name, want, got) in [("x", &x, o.fs("x")), ("s", &s, o.fs("s")), ("z", &z, o.fs("z"))] {
+        if want.len() != got.len() {
+            return Err(format!("length of {}", name));
+        }
+        for i in 0..want.len() {
+            if !close(got[i], want[i], rel) {
+                return Err(format!("unscale∘scale: {}[{}] = {:e}, started from {:e}", name, i, got[i], want[i]));
+            }
+        }
+    }
+    if !close(o.f("tau"), 1.0, 4.0 * f64::EPSILON) || !close(o.f("kappa"), kappa / tau, 8.0 * f64::EPSILON) {
+        return Err(format!("τ = {:e}, κ = {:e} after unscale (expected 1, {:e})", o.f("tau"), o.f("kappa"), kappa / tau));
+    }
+    Ok(())
 }
 
 // ---------------------------------------------------------------- equil.rectify
@@ -301,6 +409,9 @@ fn channels() -> Vec<Channel> {
             lean: "Equil.equilibrate / C10.scaled_data, bounds, zero_rows_unscaled, uniform_on_cones, disabled_is_identity" },
         Channel { name: "equil.solver_new", tol: Tol::Exact, run: run_solver_new, oracle: Some(oracle_solver_new),
             modelled: false, rust_fn: "DefaultSolver::new (solver.data right after construction)", lean: "-" },
+        Channel { name: "equil.unscale_roundtrip", tol: Tol::Exact, run: run_unscale_roundtrip, oracle: Some(oracle_unscale_roundtrip),
+            modelled: true, rust_fn: "ProblemData::equilibrate + [T]::hadamard/scale + DefaultVariables::unscale",
+            lean: "Equil.unscaleRoundtrip (scaleVars, Unscale.unscale) / C10.unscale_scale_id" },
         Channel { name: "equil.rectify", tol: Tol::Exact, run: run_rectify, oracle: Some(oracle_rectify),
             modelled: true, rust_fn: "CompositeCone::rectify_equilibration + per-cone rectify_equilibration",
             lean: "Equil.rectifyGo / C10.uniform_on_cones" },
@@ -424,6 +535,15 @@ fn settings_variants() -> Vec<(bool, usize, f64, f64)> {
         (true, 3, 1e-10, 1e10),
         (false, 10, 1e-4, 1e4),
         (false, 0, 1.0, 1.0),
+        // bounds `validate()` accepts although they exclude 1 / are inverted (round 3)
+        (true, 3, 2.0, 4.0),
+        (true, 5, 1e-3, 0.5),
+        (true, 1, 3.0, 3.0),
+        (true, 0, 2.0, 4.0),
+        (true, 4, 4.0, 2.0),
+        (false, 3, 2.0, 4.0),
+        (true, 5, 0.0, 1e4),
+        (true, 3, -1.0, 10.0),
     ]
 }
 
@@ -466,6 +586,16 @@ fn data_case(s: &mut Session) {
     s.submit(line("equil.equilibrate"));
     if m > 0 && s.rng.bool(0.25) {
         s.submit(line("equil.solver_new"));
+    }
+    if s.rng.bool(0.3) {
+        let mag = *s.rng.choose(&[0.0, 3.0]);
+        let ux: Vec<f64> = (0..n).map(|_| s.rng.normal() * 10f64.powf(s.rng.uniform(-mag, mag))).collect();
+        let us: Vec<f64> = (0..m).map(|_| if s.rng.bool(0.1) { 0.0 } else { s.rng.normal() * 10f64.powf(s.rng.uniform(-mag, mag)) }).collect();
+        let uz: Vec<f64> = (0..m).map(|_| s.rng.normal() * 10f64.powf(s.rng.uniform(-mag, mag))).collect();
+        let tau = 10f64.powf(s.rng.uniform(-3.0, 3.0));
+        let kappa = 10f64.powf(s.rng.uniform(-6.0, 1.0));
+        let l = line("equil.unscale_roundtrip");
+        s.submit(format!("{} {}", l, Line::out().fs("ux", &ux).fs("us", &us).fs("uz", &uz).f("tau", tau).f("kappa", kappa).done()));
     }
 }
 
